@@ -387,6 +387,12 @@ pub fn random_session(ctx: &mut Ctx, r: &mut Rng, cache: CacheMode) -> (Session,
                 let rl = sess.pair.replica.model.length();
                 let wl = sess.pair.writer.model.length();
                 let p = repl::random_plan(r, rl, wl, &sess.pair.writer.model, &sess.pair.replica.model);
+                if r.chance(1, 8) {
+                    // the writer closes and reopens (possibly with unflushed entries) before serving
+                    sess.script.push(json!("reopen-writer"));
+                    sess.pair.writer.reopen()?;
+                    ctx.count("writer_reopens");
+                }
                 sess.request(ctx, &p)?;
                 if r.chance(1, 6) {
                     sess.reopen_replica(ctx)?;
